@@ -367,6 +367,10 @@ def sysfs_cases(thorough):
                 non = sum(1 for c in cpus if c[3])
                 for cn in sorted({non, 0}):      # /proc/cpuinfo lists online CPUs only
                     cases.append(("freq-sysfs", layout, cpus, cn))
+    big = [(1000000 + 10000 * i, 400000 + 1000 * i, 2000000 + 100000 * i, True, "scaling") for i in range(12)]
+    for layout in ("policy", "percpu"):
+        for cn in (12, 0):
+            cases.append(("freq-sysfs", layout, big, cn))
     return cases
 
 
